@@ -504,7 +504,16 @@ class Env:
         return self.store.sub(loc[0], loc[1])
 
     def _order(self, f):
-        return f.byte_order or getattr(self.s, "default_byte_order", None) or self.m.default_byte_order or "Null"
+        if f.byte_order:
+            return f.byte_order
+        # `$default` applies to the entity it is attached to and to all of its sub-entities, i.e. also
+        # to types defined inline inside a structure that sets it
+        sd = self.s
+        while sd is not None:
+            if getattr(sd, "default_byte_order", None):
+                return sd.default_byte_order
+            sd = self.m.struct(sd.parent) if getattr(sd, "parent", None) else None
+        return self.m.default_byte_order or "Null"
 
     # -- sub-views
     def sub_env(self, name, index=None):
